@@ -309,6 +309,9 @@ func c06Run(c *core.Ctx) {
 			kk = 1
 		}
 		gen.Layouts(toks, kk, gaps, func(text string, devs []gen.Dev) {
+			if c.Tick() {
+				return
+			}
 			c.Cur(text)
 			c.Inc("inputs")
 			c.Inc("layout_texts")
